@@ -40,13 +40,17 @@ use crate::{
 /// search. Versions visible to snapshots are preserved unless hidden by a newer
 /// version in the same visibility boundary.
 pub(crate) struct SnapshotTracker {
-	snapshots: Arc<SkipSet<u64>>,
+	/// (horizon, holder id): several snapshots may share a horizon, and each holds
+	/// its own entry so that dropping one does not unregister the others.
+	snapshots: Arc<SkipSet<(u64, u64)>>,
+	next_id: Arc<std::sync::atomic::AtomicU64>,
 }
 
 impl Clone for SnapshotTracker {
 	fn clone(&self) -> Self {
 		Self {
 			snapshots: Arc::clone(&self.snapshots),
+			next_id: Arc::clone(&self.next_id),
 		}
 	}
 }
@@ -68,6 +72,7 @@ impl SnapshotTracker {
 	pub(crate) fn new() -> Self {
 		Self {
 			snapshots: Arc::new(SkipSet::new()),
+			next_id: Arc::new(std::sync::atomic::AtomicU64::new(0)),
 		}
 	}
 
@@ -77,7 +82,8 @@ impl SnapshotTracker {
 	/// to the tracking set, ensuring compaction will preserve versions
 	/// visible to this snapshot.
 	pub(crate) fn register(&self, seq_num: u64) {
-		self.snapshots.insert(seq_num);
+		let id = self.next_id.fetch_add(1, std::sync::atomic::Ordering::Relaxed);
+		self.snapshots.insert((seq_num, id));
 	}
 
 	/// Unregisters a snapshot with the given sequence number.
@@ -86,7 +92,13 @@ impl SnapshotTracker {
 	/// a certain sequence number are dropped, older versions become eligible
 	/// for garbage collection during compaction.
 	pub(crate) fn unregister(&self, seq_num: u64) {
-		self.snapshots.remove(&seq_num);
+		// Remove exactly one holder of this horizon (retry if a concurrent
+		// unregister took the entry we found).
+		while let Some(entry) = self.snapshots.range((seq_num, 0)..=(seq_num, u64::MAX)).next() {
+			if entry.remove() {
+				return;
+			}
+		}
 	}
 
 	/// Returns all active snapshots as a sorted vector.
@@ -94,14 +106,16 @@ impl SnapshotTracker {
 	/// This is the primary method used by compaction. The returned vector
 	/// is sorted in ascending order.
 	pub(crate) fn get_all_snapshots(&self) -> Vec<u64> {
-		self.snapshots.iter().map(|entry| *entry).collect()
+		let mut all: Vec<u64> = self.snapshots.iter().map(|entry| entry.0).collect();
+		all.dedup();
+		all
 	}
 
 	/// Returns the smallest active snapshot seq, if any. O(log N) via
 	/// `SkipSet::front`. Used by the commit oracle to compute its GC
 	/// watermark on every commit.
 	pub(crate) fn first(&self) -> Option<u64> {
-		self.snapshots.front().map(|e| *e.value())
+		self.snapshots.front().map(|e| e.value().0)
 	}
 }
 
